@@ -288,3 +288,12 @@ Example reserved_names_rejected :
    np_step (AddVariable "q" (OScalar (PInt 0)) None) s = (s, Raise DuplicateNameError)) /\
   snd (np_step (AddVariable "span" (OScalar (PInt 0)) None) w0) = Ret tt.
 Proof. vm_compute. repeat split. Qed.
+
+(* the hypotheses of strict_creates_nothing are satisfiable: strict=True, an item assignment and a values replacement *)
+Example strict_creates_nothing_instances :
+  let s := fst (np_step (SetAttr "strict" (OScalar (PBool true)) None) (fst (np_step (SetAttr "values" (OScalar (PInt 5)) None) w0))) in
+  strict s = true /\
+  registry (fst (np_step (SetItem (KLabel "X" 10%Z) (OScalar (PInt 1))) s)) = registry s /\
+  registry (fst (np_step (SetAttr "values" (OScalar (PInt 6)) None) s)) = registry s /\
+  np_step (SetAttr "fooo" (OScalar (PInt 1)) None) s = (s, Raise AttributeError).
+Proof. vm_compute. repeat split. Qed.
